@@ -35,6 +35,10 @@ func parseOnly(s string) map[int]bool {
 
 func main() {
 	initRegistry()
+	initFrames()
+	if _, err := os.Stat(pinnedPath); err == nil {
+		loadPinned()
+	}
 	if len(os.Args) < 2 {
 		fmt.Fprintln(os.Stderr, "usage: harness corr|oracle|replay ...")
 		os.Exit(2)
